@@ -91,6 +91,10 @@ var c15Templates = []c15Tmpl{
 	{text: "§1 := []func(int) int{func(x int) int { return x + 1 }, func(x int) int { return x * ¤ }}\nfor _, §2 := range §1 {\n\tout += SC.Itoa(§2(a))\n}", n: 2},
 	{text: "§1 := map[D.Box]*D.Box{{N: 1}: {N: a}}\nfor §2, §3 := range §1 {\n\tout += §2.Show() + §3.Show()\n}", n: 3},
 	{text: "var §1 D.Box\n§1.N = a\n§2 := &§1\n§2.N += ¤\nout += §1.Show() + SC.Quote(ST.ToUpper(\"q\"))", n: 2},
+	// the second dependency package alone (it may be dot-imported), with a local of their own
+	{text: "§1 := D2.Helper(a)\nout += §1 + D2.Helper(¤)", n: 1, dep2: true},
+	{text: "for §1 := 0; §1 < 2; §1++ {\n\tout += D2.Helper(§1 + a)\n}", n: 1, dep2: true},
+	{text: "§1 := struct{ n int }{n: a}\n§2 := D2.Helper(§1.n)\nout += §2", n: 2, dep2: true},
 	// locals declared inside the clauses of a type switch, next to the switch's own variable
 	{text: "for _, §2 := range []interface{}{a, \"s\", 2.5} {\n\tswitch §1 := §2.(type) {\n\tcase int:\n\t\t§3 := §1 + ¤\n\t\tout += SC.Itoa(§3) + SC.Itoa(§1)\n\tcase string:\n\t\tif §3 := ST.ToUpper(§1); §3 != §1 {\n\t\t\tout += §3 + §1\n\t\t}\n\tdefault:\n\t\t§3 := F.Sprint(§1)\n\t\tout += §3\n\t}\n}", n: 3},
 	// nested closures capturing locals of enclosing scopes
@@ -207,6 +211,7 @@ func genC15() *rapid.Generator[*C15Case] {
 			importNames[n] = true
 		}
 		cs.DeclsFirst = rapid.Bool().Draw(t, "declsfirst")
+		cs.DotDep = rapid.Bool().Draw(t, "dotdep")
 		nf := rapid.IntRange(1, 5).Draw(t, "nfuncs")
 		for fi := 0; fi < nf; fi++ {
 			var fn C15Func
@@ -230,6 +235,9 @@ func genC15() *rapid.Generator[*C15Case] {
 				forced := map[int]string{}
 				if tm.n >= 2 && rapid.IntRange(0, 99).Draw(t, "collisionpair") < 30 {
 					base := rapid.SampledFrom([]string{"fmt", "strconv", "strings", "errors", "dep"}).Draw(t, "pairbase")
+					if tm.dep2 {
+						base = "dep"
+					}
 					if !used[base] && !used[base+"2"] && !importNames[base] && !importNames[base+"2"] {
 						slots := rapid.Permutation(seqInts(tm.n)).Draw(t, "pairslots")
 						forced[slots[0]], forced[slots[1]] = base, base+"2"
@@ -295,6 +303,11 @@ func (cs *C15Case) importName(k string) string {
 func (cs *C15Case) subst(text string) string {
 	for _, k := range []string{"SC", "ST", "D2", "F", "E", "D"} {
 		re := regexp.MustCompile(`\b` + k + `\.`)
+		if k == "D2" && cs.DotDep {
+			// the second dependency package is dot-imported: its names are unqualified
+			text = re.ReplaceAllString(text, "")
+			continue
+		}
 		text = re.ReplaceAllString(text, cs.importName(k)+".")
 	}
 	return text
@@ -335,7 +348,11 @@ func (cs *C15Case) files(prog string) map[string]string {
 	w.WriteString("\n")
 	imp("D", base+"/lib")
 	if cs.usesDep2() {
-		imp("D2", base+"/other/dep")
+		if cs.DotDep {
+			fmt.Fprintf(&w, "\t. %q\n", base+"/other/dep")
+		} else {
+			imp("D2", base+"/other/dep")
+		}
 	}
 	w.WriteString("\t\"github.com/google/wire\"\n)\n\n")
 	w.WriteString("// InitBox builds a box.\nfunc InitBox() " + cs.importName("D") + ".Box {\n\twire.Build(NewBox)\n\treturn " + cs.importName("D") + ".Box{}\n}\n\n")
@@ -367,10 +384,17 @@ func (cs *C15Case) files(prog string) map[string]string {
 	if !declsFirst {
 		w.WriteString(cs.subst(c15PkgDecls))
 	}
+	if cs.Alias["D"] != "" {
+		// an ungrouped declaration whose last token is a package-qualified
+		// identifier, with a closure parameter named like the package
+		w.WriteString(cs.subst("\n// gvTail ends in a qualified identifier.\nvar gvTail = func(dep int) int { return dep + D.K }(2) + D.V\n"))
+	} else {
+		w.WriteString("\nvar gvTail = 12\n")
+	}
 	// keep every import used even when no function mentions it (last, so that a probe
 	// function can be the first copied declaration to mention a package)
 	w.WriteString(cs.subst("\nvar _ = []interface{}{F.Sprint, SC.Itoa, ST.Join, E.New}\n"))
-	probe.WriteString("\ts += table[\"a\"].name() + Second(3)\n\treturn s\n}\n\nfunc (h handler) name() string { v, _ := h(counter); return v }\n")
+	probe.WriteString("\ts += string(rune('a' + gvTail%26))\n\ts += table[\"a\"].name() + Second(3)\n\treturn s\n}\n\nfunc (h handler) name() string { v, _ := h(counter); return v }\n")
 	out["decls.go"] = w.String()
 	// a second injector file that spells another package with the same local import name
 	da := cs.importName("D")
@@ -443,7 +467,17 @@ func (dc *declCmp) cmp(a, b reflect.Value, path string) {
 		a, b = a.Elem(), b.Elem()
 	}
 	if a.Type() != b.Type() {
-		// package qualifier introduced for a dot-imported or same-package identifier is not expected here
+		// an identifier of a dot-imported package gets its qualifier in the copy
+		if ai, ok := a.Interface().(*ast.Ident); ok && ai.Obj == nil && ast.IsExported(ai.Name) {
+			if bs, ok := b.Interface().(*ast.SelectorExpr); ok {
+				if bx, ok := bs.X.(*ast.Ident); ok && bx.Obj == nil {
+					if dp, isDot := dc.srcImports["."]; isDot && dc.genImports[bx.Name] == dp && bs.Sel.Name == ai.Name {
+						return
+					}
+				}
+			}
+		}
+		// any other package qualifier introduced for an identifier is not expected here
 		dc.problems = append(dc.problems, fmt.Sprintf("%s: node kind %s became %s", path, a.Type(), b.Type()))
 		return
 	}
@@ -756,6 +790,9 @@ func judgeC15(c *Ctx, cs *C15Case, o c15Obs, count bool) *Fail {
 		}
 		if len(kinds) >= 25 || collide {
 			c.Nontrivial(cs.key())
+		}
+		if cs.DotDep && cs.usesDep2() {
+			c.Class("dot-imported-dependency")
 		}
 		if collide {
 			c.Class("local-collides-with-generated-or-package-name")
